@@ -59,3 +59,31 @@ pub fn unhex(s: &str) -> Vec<u8> {
         .map(|c| u8::from_str_radix(std::str::from_utf8(c).unwrap(), 16).unwrap())
         .collect()
 }
+
+
+/// Run a monitor so that a panic which escapes its own `catch` calls (for instance out of a `Drop` of a
+/// library type) still ends in a written fragment: a panic raised in library code becomes a violation
+/// `<PROP>.panic-escaped:<location>`, one raised in harness code an inconclusive note.  Either way the
+/// observations collected so far are kept.
+pub fn guarded(rep: &mut Report, args: &Args, f: impl FnOnce(&mut Report)) {
+    let before = panics::count();
+    let r = std::panic::catch_unwind(std::panic::AssertUnwindSafe(|| f(rep)));
+    if r.is_ok() {
+        return;
+    }
+    let rec = panics::since(before).pop();
+    let (loc, msg) = rec.map(|r| (r.location, r.message)).unwrap_or_default();
+    if loc.contains("/harness/") || loc.is_empty() {
+        rep.inconclusive(format!("the monitor itself panicked at {loc}: {msg}"));
+        return;
+    }
+    let short = panics::short_location(&loc);
+    let prop = rep.property.clone();
+    let replay = serde_json::json!({"kind": "shard", "seed": args.seed(), "tier": args.get("tier").unwrap_or("quick"),
+        "shard": args.u64("shard", 0), "shards": args.u64("shards", 1), "budget": args.get("budget")});
+    rep.violation(
+        format!("{prop}.panic-escaped:{short}"),
+        format!("library code panicked outside every guarded call of the monitor (e.g. in a Drop) at {short}: {msg}; the rest of this shard's workload was not run"),
+        replay,
+    );
+}
